@@ -660,7 +660,8 @@ class TransverselyIsotropic(_Elastic):
 
         kt = self.kt
 
-        dtype = object if isinstance(kt, np.ndarray) else float
+        params = [El, Et, Gl, vl, vt]
+        dtype = object if True in [isinstance(p, np.ndarray) for p in params] else float
 
         # Kelvin-Mandel compliance and stiffness matrices in the material's coordinate system.
         # L = (1, 0, 0)
